@@ -12,6 +12,7 @@ import (
 	yaml "gopkg.in/yaml.v2"
 
 	"github.com/osteele/liquid"
+	"github.com/osteele/liquid/render"
 	"verifmc/explore"
 )
 
@@ -48,6 +49,19 @@ var c02MapTemplates = []string{
 }
 
 const c02IncName = "c02_included.liquid"
+
+// c02ErrTemplates: failures whose message or outcome an implementation might compute by walking one of the
+// engine's own maps: unknown filters/tags at edit distance 1-2 from several registered names, missing includes
+// next to cached names, arity errors, plus successful uses of many filters in one template.
+var c02ErrTemplates = []string{
+	"{{ s | url_code }}", "{{ s | xstrip }}", "{{ s | strip_ }}", "{{ s | sor }}", "{{ s | ap }}", "{{ s | remove_ }}", "{{ s | upcas }}", "{{ l | firs }}",
+	"{{ l | joi }}", "{{ 1 | plu }}", "{{ s | replace_ }}", "{{ s | truncat }}", "{{ s | escape_onc }}", "{{ s | own_a }}", "{{ s | own }}", "{{ s | nosuchfilter_at_all }}",
+	"{% iff s %}{% endiff %}", "{% fo i in l %}{% endfo %}", "{% endd %}", "{% assignn x = 1 %}", "{% includes 'x' %}", "{% cas s %}{% endcas %}", "{% own_tag_ %}", "{% capturee c %}{% endcapturee %}",
+	"{% endfor %}", "{% else %}", "{% if s %}{% endfor %}", "{% for i in l %}{% endif %}", "{% unless %}{% endunless %}",
+	`{% include "c02_include.liquid" %}`, `{% include "c02_included" %}`, `{% include "c02_other.liquid" %}`, "{% include 12 %}",
+	"{{ s | append }}", "{{ s | append: 1, 2, 3 }}", "{{ s | upcase: 1 }}", "{{ l | sort: 1, 2 }}", "{{ 1 | divided_by: 0 }}", "{{ s | plus: 'x' }}",
+	"{{ s | upcase | downcase | capitalize | append: 'x' | prepend: 'y' | size | plus: 1 | minus: 1 | times: 2 | divided_by: 2 | round | floor | ceil | abs }}",
+}
 
 // permutations of 0..n-1 (all for n<=4; cyclic shifts + reversal beyond)
 func c02Orders(n int) [][]int {
@@ -167,6 +181,20 @@ func c02Engine() *liquid.Engine {
 	if _, err := e.ParseTemplateAndCache([]byte("inc:{% for kv in m %}{{ kv[0] }}{% endfor %}{{ m | first }}"), c02IncName, 1); err != nil {
 		panic(explore.BaselineFailure{Msg: "harness: " + err.Error()})
 	}
+	// a few registrations and cache entries of the application's own, with names close to each other
+	for _, n := range []string{"own", "own_b", "own_c", "owm"} {
+		n := n
+		e.RegisterFilter(n, func(v any) string { return n })
+	}
+	for _, n := range []string{"own_tag", "own_tag2", "own_tagx"} {
+		n := n
+		e.RegisterTag(n, func(c render.Context) (string, error) { return n, nil })
+	}
+	for _, n := range []string{"c02_other1.liquid", "c02_other2.liquid", "c02_include_.liquid"} {
+		if _, err := e.ParseTemplateAndCache([]byte("cached "+n), n, 1); err != nil {
+			panic(explore.BaselineFailure{Msg: "harness: " + err.Error()})
+		}
+	}
 	return e
 }
 
@@ -186,13 +214,21 @@ func answersAt(logEntry uint32) int {
 
 // c02Explore runs the deviation-bounded DFS over map-iteration choices for one (template, bindings).
 func c02Explore(r *explore.Rec, tpl *liquid.Template, mk func() map[string]any, base string, bound int, desc func(choices []int) any) (execs int) {
+	return c02ExploreF(r, func(b map[string]any) (string, liquid.SourceError) {
+		out, err := tpl.Render(b)
+		return string(out), err
+	}, mk, base, bound, desc)
+}
+
+// c02ExploreF is c02Explore for an arbitrary operation (e.g. parse + render) performed under the seam.
+func c02ExploreF(r *explore.Rec, op func(b map[string]any) (string, liquid.SourceError), mk func() map[string]any, base string, bound int, desc func(choices []int) any) (execs int) {
 	run := func(choices []int) (string, []uint32) {
 		b := mk()
 		mapSeamBegin(choices)
 		var o Outcome
 		o.Panic = explore.Safe(func() {
-			out, err := tpl.Render(b)
-			o.Out, o.Err = string(out), err
+			out, err := op(b)
+			o.Out, o.Err = out, err
 		})
 		log := mapSeamEnd()
 		return o.Sig(), log
@@ -458,6 +494,34 @@ func c02Families(tier string) []explore.Family {
 			r.Sample(map[string]any{"template": src, "map_entries": c.n, "insertion_order": c.order, "executions": execs, "outcome": trunc80(base)})
 		}
 	}})
+	// the engine's OWN maps (filters, tags, block definitions, template cache) are iterated too - typically on
+	// error paths (suggestions, listings). Failing and near-miss templates are parsed AND rendered under the seam,
+	// every map-iteration start being a choice point, on an engine with a few extra registrations and cache entries.
+	fams = append(fams, explore.Family{Name: "engine-map-order", Count: int64(len(c02ErrTemplates)), Run: func(i int64, r *explore.Rec) {
+		src := c02ErrTemplates[i]
+		if !mapSeamAvailable {
+			r.Incomplete = append(r.Incomplete, "engine-map-order (no runtime seam)")
+			return
+		}
+		op := func(b map[string]any) (string, liquid.SourceError) { return c02.eng.ParseAndRenderString(src, b) }
+		mk := func() map[string]any {
+			return map[string]any{"s": "v", "l": []any{1, 2}, "m": map[string]any{"a": 1, "b": 2}}
+		}
+		mapSeamBegin(nil)
+		var o Outcome
+		o.Panic = explore.Safe(func() { o.Out, o.Err = op(mk()) })
+		mapSeamEnd()
+		b := bound
+		if b > 2 {
+			b = 2
+		}
+		execs := c02ExploreF(r, op, mk, o.Sig(), b, func(choices []int) any {
+			return map[string]any{"template": src, "iteration_start_choices": choices}
+		})
+		r.Class("engine-maps/" + o.Class())
+		r.Count("map_order_executions", int64(execs))
+	}})
+
 	// entry points x re-render x fresh parse x fresh engine x rebuilt bindings
 	if c02.pool == nil {
 		c02.pool = c02Pool()
